@@ -526,6 +526,112 @@ class ProgGen:
         self.vars['int'].append(v)
         return ['%s = %s' % (v, r.choice(['True', 'False', 'len("abc")', 'round(2.5)', 'ord("a")']))]
 
+    # ------------------------------------------------------------ richer CS1/CS2 constructs
+    def rich_stmt(self):
+        r = self.r
+        c = r.randrange(22)
+        f = self.fresh('func')
+        if c == 0:      # closure
+            self.funcs.append((f, 1, 'int'))
+            return ['def %s(a):' % f, '    k = %s' % self.int_lit(), '    def inner(b):', '        return a + b + k',
+                    '    return inner(%s)' % self.int_lit()]
+        if c == 1:      # *args / **kwargs
+            v = self.fresh('int')
+            out = ['def %s(*args, **kw):' % f, '    return len(args) * 10 + len(kw)', '%s = %s(1, 2, z=3)' % (v, f)]
+            self.funcs.append((f, 2, 'int'))
+            self.vars['int'].append(v)
+            return out
+        if c == 2:      # default argument
+            self.funcs.append((f, 1, 'int'))
+            return ['def %s(a, b=%s):' % (f, self.int_lit()), '    return a * 2 + b']
+        if c == 3:      # bounded recursion
+            self.funcs.append((f, 0, 'none'))
+            v = self.fresh('int')
+            self.vars['int'].append(v)
+            return ['def %s(n=%d):' % (f, r.randint(0, 6)), '    if n <= 0:', '        return 0', '    return n + %s(n - 1)' % f,
+                    '%s = %s()' % (v, f)]
+        if c == 4:      # dict comprehension + items loop
+            d = self.fresh('dict')
+            self.vars['dict'].append(d)
+            return ["%s = {k: len(k) for k in ['a', 'bb', 'ccc'][:%d]}" % (d, r.randint(0, 3)),
+                    'for key, val in %s.items():' % d, '    print(key, val)']
+        if c == 5:      # for / else
+            i = self.fresh('tmp')
+            return ['for %s in range(%d):' % (i, r.randint(0, 3)), '    if %s == %d:' % (i, r.randint(0, 4)), '        break',
+                    'else:', "    print('no break')"]
+        if c == 6:      # while / else
+            self.counter += 1
+            w = 'w%d' % self.counter
+            return ['%s = %d' % (w, r.randint(0, 3)), 'while %s > 0:' % w, '    %s -= 1' % w, 'else:', "    print('loop done', %s)" % w]
+        if c == 7 and self.vars['list']:
+            xs = r.choice(self.vars['list'])
+            v = self.fresh('str')
+            out = ["%s = '-'.join(str(e) for e in %s)" % (v, xs), 'print(%s[::-1], %s[1:], sorted(%s, key=lambda e: -e)[:2])' % (xs, xs, xs),
+                   'for idx, e in enumerate(%s):' % xs, '    print(idx, e, sep=":")']
+            self.vars['str'].append(v)
+            return out
+        if c == 8:      # nonlocal counter
+            v = self.fresh('int')
+            out = ['def %s():' % f, '    count = 0', '    def bump():', '        nonlocal count', '        count += 1', '        return count',
+                   '    bump()', '    return bump()', '%s = %s()' % (v, f)]
+            self.funcs.append((f, 0, 'int'))
+            self.vars['int'].append(v)
+            return out
+        if c == 9:      # inheritance + super()
+            a, b = self.fresh('class'), self.fresh('class')
+            v = self.fresh('int')
+            out = ['class %s:' % a, '    def __init__(self):', '        self.v = %s' % self.int_lit(), '    def get(self):', '        return self.v',
+                   'class %s(%s):' % (b, a), '    def get(self):', '        return super().get() + 1', '%s = %s().get()' % (v, b)]
+            self.vars['int'].append(v)
+            return out
+        if c == 10:     # property / staticmethod
+            k = self.fresh('class')
+            v = self.fresh('int')
+            out = ['class %s:' % k, '    def __init__(self, w):', '        self._w = w', '    @property', '    def w(self):', '        return self._w * 2',
+                   '    @staticmethod', '    def make():', '        return %s(%s)' % (k, self.int_lit()), '%s = %s.make().w' % (v, k)]
+            self.vars['int'].append(v)
+            return out
+        if c == 11:     # isinstance / type names
+            return ['print(isinstance(%s, int), type(%s).__name__, type(%s).__name__)' % (self.int_expr(1), self.str_lit(), r.choice(['[]', '{}', '()', 'None', '1.5']))]
+        if c == 12:     # student exception class raised and caught by the student
+            k = self.fresh('class') + 'Error'
+            return ['class %s(Exception):' % k, '    pass', 'try:', '    raise %s(%s)' % (k, self.int_lit()), 'except %s as caught:' % k,
+                    "    print('caught', caught.args)"]
+        if c == 13:     # raise ... from inside try
+            return ['try:', '    try:', '        [][%s]' % r.choice(['0', '1']), '    except IndexError as inner_error:',
+                    "        raise ValueError('wrapped') from inner_error", 'except ValueError as outer_error:',
+                    '    print(type(outer_error.__cause__).__name__)']
+        if c == 14:     # try / finally with return
+            self.funcs.append((f, 1, 'int'))
+            return ['def %s(q):' % f, '    try:', '        return 10 // q', '    finally:', "        print('finally', q)"]
+        if c == 15:     # format specs
+            return ["print(f'{%s:>5}|{%s:<4}|{%s:.2f}|{%s!r}')" % (self.int_expr(1), self.str_lit(), r.choice(['1.005', '2.5', '0.0']), self.str_lit())]
+        if c == 16 and self.allow_input:
+            self.prompts += 1
+            self.reads += 1
+            v = self.fresh('int')
+            out = ['try:', '    %s = int(input(%r))' % (v, PROMPT % self.prompts), 'except ValueError:', '    %s = -1' % v]
+            self.vars['int'].append(v)
+            return out
+        if c == 17 and self.vars['list']:
+            xs = r.choice(self.vars['list'])
+            return ['print(*%s)' % xs, "print(%s, sep=', ')" % xs, 'if %s:' % xs, '    first, *rest = %s' % xs, '    print(first, rest)']
+        if c == 18:     # string methods
+            v = self.fresh('list')
+            out = ["%s = %s.split()" % (v, self.str_lit()), "print(len(%s), %s.upper().count('A'), %s.replace('a', 'b'))" % (v, self.str_lit(), self.str_lit())]
+            return out
+        if c == 19:     # set operations
+            return ['print(sorted({1, 2, 3} & {%s, 2}), sorted({1} | {%s}), 3 in {1, 2})' % (self.int_lit(), self.int_lit())]
+        if c == 20:     # chained comparison, boolean short circuit, conditional expression
+            v = self.fresh('int')
+            out = ['%s = (1 if 0 < %s < 10 else 2) if %s or %s else 3' % (v, self.int_expr(1), self.cond(), self.cond())]
+            self.vars['int'].append(v)
+            return out
+        # tuple / dict of tuples
+        d = self.fresh('dict')
+        self.vars['dict'].append(d)
+        return ['%s = {(1, 2): %s, "k": (%s, %s)}' % (d, self.int_lit(), self.int_lit(), self.int_lit()), 'print(%s[(1, 2)], len(%s))' % (d, d)]
+
     def simple_or_compound(self, depth):
         r = self.r
         c = r.random()
@@ -561,14 +667,18 @@ class ProgGen:
             return self.while_stmt(depth)
         if c < 0.85:
             return self.try_stmt(depth)
-        if c < 0.90 and depth == 0:
+        if c < 0.89 and depth == 0:
             return self.def_stmt(depth)
-        if c < 0.93 and depth == 0:
+        if c < 0.91 and depth == 0:
             return self.class_stmt(depth)
-        if c < 0.95 and depth == 0:
+        if c < 0.925 and depth == 0:
             return self.gen_stmt()
-        if c < 0.98:
+        if c < 0.955 and depth == 0:
+            return self.rich_stmt()
+        if c < 0.975:
             return self.import_stmt()
+        if depth == 0:
+            return self.rich_stmt()
         return self.print_stmt()
 
     def program(self, n_stmts, planted_raise=False):
